@@ -381,23 +381,27 @@ CHECKS.update({
     "C06": dict(
         level="model_checking",
         technique="TLA+ spec solver/Checkpoint.tla (several solver instances, a snapshot store, evaluation-counter cells on a heap, "
-                  "the random-generator state as an explicit variable; actions Step, Save, PeriodicDump, Load, DeepCopy, "
-                  "RestoreRng, Scramble, SetCfg) model-checked by TLC for ResumeEquivalence, Independence (action property) and "
-                  "CopyCounts, with six named as-is designs refuted; solver/Gen_Checkpoint.tla drives the same actions as "
+                  "the random-generator state as an explicit variable; Step() as the critical sections Iterate / Continue | Finalize "
+                  "/ ForcedDump; actions Save, PeriodicDump, Load, DeepCopy, RestoreRng, Scramble, SetCfg, Raise) model-checked by TLC "
+                  "for ResumeEquivalence (premised on generator labels and configuration history only), Independence (action "
+                  "property) and CopyCounts, with eight named as-is designs refuted; solver/Gen_Checkpoint.tla drives the same actions as "
                   "crash/restore experiments: TLC enumerates every script and emits after every command which equalities, "
                   "counters and stop verdicts the specification asserts; the harness executes each script on real "
                   "DE/DE2/Nelder-Mead/Powell solvers and compares bit for bit what TLC asserted (spec->code)",
         text="Scripts = (solver kind, setting, interruption generation k, path, generator handling, mode): paths SaveSolver+"
              "LoadSolver, periodic SetSaveFrequency dump+LoadSolver, dill, deepcopy; generator restored or scrambled; modes none / "
              "original advances first / interleaved / restored instance gets its own limit / two restores from one snapshot / "
-             "restore of a restored solver.  Quick: 4 kinds x 10 settings (bounds, constraints, penalty, monitors, evaluation "
-             "limits, save frequencies 1-3) x EVERY boundary k of runs of 8 generations x 4 paths = 1.8k scripts, 9.4k "
-             "post-checkpoint steps; thorough: 25k scripts over 58 groups, every k of n<=25, 359k compared steps.  After every "
+             "restore of a restored solver.  The reference, the original and every restored or copied instance are also driven INTO their "
+             "stops (limit reached, finalized, forced dump), given the same raised limit (new=False / new=True) and continued.  "
+             "Quick: 4 kinds x 12 settings (bounds, constraints, penalty, monitors, evaluation limits, save frequencies 1-3 that "
+             "divide / do not divide the stop generation) x EVERY boundary k of runs of 8 generations incl. the stop "
+             "generation x 4 paths = 2.6k scripts, 25k compared steps; thorough: 35k scripts over 74 groups, every k of n<=25, "
+             "912k compared steps.  After every "
              "command the full projection of every live instance (population, energies, best, generations, evaluations, energy/"
              "solution history, step- and evaluation-monitor contents, limits, Terminated message, DE genealogy, Nelder-Mead "
              "simplex, Powell's direction set and internals) is compared NaN-aware and bit-exact with the uninterrupted run at "
              "the generation the specification names; every other instance must be unchanged; evaluations move by exactly the "
-             "real objective calls of the acting instance.  Design: 288k (quick) / 6M (thorough) TLC states, 7 vacuity "
+             "real objective calls of the acting instance.  Design: 225k (quick) / 7.2M (thorough) TLC states, 9 vacuity "
              "witnesses.",
         note="trusted: TLC, the harness projection and generator bookkeeping (random + numpy.random state saved at snapshot time "
              "and installed per instance), harness/c06_costs as the real-call counter; premises: user terminations never fire "
